@@ -36,12 +36,6 @@ pub fn info() -> PropInfo {
     }
 }
 
-/// Signatures of genuine, reported, still open defects that are skipped locally (see `run_case`).
-pub const C01_LOCAL_SKIP: &[&str] = &[
-    // (D) op_advance underflow: DW_LNS_fixed_advance_pc 0 after a row with op_index > 0 (VLIW)
-    "panic|*|src/write/line.rs|address_advance * u64::from(self.line_encoding.maximum_operations_per_instruction)|attempt to subtract with overflow",
-];
-
 #[derive(Clone, Copy, PartialEq, Debug)]
 pub enum Slot {
     Sec(SectionId),
@@ -206,13 +200,6 @@ pub fn run_case(ctx: &mut Ctx, e: &Entry, s: &Secs, p: P, fault: Option<u64>, fa
             ops
         }
         Err(pi) => {
-            // LOCAL SKIP (c01x): genuine open defect reported to the coordinator, skipped by its
-            // exact signature only so that work can continue; remove once gimli is repaired or
-            // the finding is registered in known_findings.json.
-            if C01_LOCAL_SKIP.contains(&ctx.panic_signature("*", &pi).0.as_str()) {
-                ctx.obs(&format!("local_skip.{family}"));
-                return 0;
-            }
             let file = pi.file.rsplit('/').next().unwrap_or("?").to_string();
             ctx.obs(&format!("hit.{family}|panic|{}:{}", file, pi.line));
             ctx.report_panic2("*", e.name, &pi, &input);
